@@ -52,6 +52,8 @@ func main() {
 	flag.IntVar(&cfg.Witnesses, "witnesses", 3, "completed paths per harness exported as native-replay witnesses")
 	flag.BoolVar(&cfg.Gen, "gen", false, "generate per-method harnesses from the method sets, then load again")
 	var params string
+	flag.IntVar(&cfg.ResetTerms, "reset-terms", 400000, "restart solver and term table when this many terms exist")
+	flag.BoolVar(&cfg.NoSleepSets, "no-sleep-sets", false, "disable sleep-set partial-order reduction")
 	flag.BoolVar(&cfg.NoCache, "no-cache", false, "disable the model (counterexample) cache")
 	flag.StringVar(&params, "params", "", "harness parameters k=v,k=v (zzverif.Param)")
 	flag.StringVar(&run, "run", ".*", "regexp selecting harness functions (VH_*)")
